@@ -18,6 +18,10 @@ CHECKS = {
    text="A: TLC explores every placement (7 rule contexts incl. pattern expression and root selector x wrapper nests x next/exit/return/break/continue/fault) on the JqEval machine, checking NoEscape/SigConsumed/FrameBalance in every state; each placement runs through the library (outcome and output must be one the model allows) and the binary (exit status, stderr, no crash). B: thousands of seeded random programs (grammatical, mutated, arbitrary bytes) x selectors x inputs are executed with hooks on; the recorded event traces are validated by TLC against the protocol spec JqProto (legal outcome, frame discipline, signal consumption); a sample also through the binary.",
    note="Trusts TLC, JqEval/JqProto; random coverage is sampling, not exhaustive; budget/timeouts are inconclusive.",
    tech="TLA+ model checking of signal placements + trace validation of recorded executions against a TLA+ protocol spec"),
+ "C11": dict(cat="model_checking", ref="5 (C11), 4.7",
+   text="Syntax half: TLC shows (MC_Splice) that every splice of the catalogue at every token boundary of every host violates a necessary condition of the grammar (hosts satisfy all of them); each spliced program must end in a syntax error with no output (library, two layouts, and a sample through the binary). Runtime half: TLC explores fault-injected statement trees on the JqEval machine (StopFreezesOutput, NoEscape, ... in every state); each behaviour is instantiated with fault kinds x syntactic slot shapes and replayed: outcome runtime, output exactly the statements executed before the fault.",
+   note="Trusts TLC, JqEval and the necessary-condition recognisers of MC_Splice; fault kinds/shapes are a finite catalogue; messages not compared.",
+   tech="TLA+ model checking (fault propagation on JqEval; grammar necessary conditions) + behaviour replay"),
 }
 ALL = ["C%02d" % i for i in range(1, 21)]
 hooks_commits = subprocess.run(["git","-C","/repo","log","--format=%H %s"],capture_output=True,text=True).stdout.splitlines()
